@@ -395,9 +395,10 @@ def campaign_accepts(ck: Check, log: list) -> None:
                 camp.unmodelled += 1  # C16-member-shadows-type-name: a naming defect, not a semantic one
                 camp.hit("unmodelled:member_shadows_type_name")
                 continue
-            if cause and cause.startswith("member_shadows_"):
+            if cause and (cause.startswith("member_shadows_") or cause == "renamed_member_alias_is_python_name"):
                 # the emitted classes have a member that hides a class of the module inside the class namespace: member and class
                 # NAMES are not part of the semantic models; the rejection is reported by the property's own oracle
+                # (renamed_member_alias_is_python_name: the wire name of a renamed member was replaced — aliases are names too)
                 camp.unmodelled += 1
                 camp.hit("unmodelled:" + cause)
                 continue
